@@ -114,6 +114,9 @@ def run(ctx: Ctx):
            f"`{stale[0].id if stale else ''}` (bound per history row) is used after the row loop: only the last row "
            f"would be processed, earlier epochs lose the data", rel, stale[0].lineno if stale else cache.line,
            sample=[f"{n.id}@{n.lineno}" for n in stale])
+    # the row's epoch: the name bound to int(row["epoch"]) inside the row loop
+    row_epoch_names = {d.name for d in rd_cache.defs if d.stmt is not None and id(d.stmt) in inside and d.value is not None
+                       and u(d.value).replace('"', "'") == f"int({rl.target.id}['epoch'])"}
     urest = []
     for n in ast.walk(rl):
         if isinstance(n, ast.For) and "user_entry_types" in u(n.iter) and isinstance(n.target, ast.Tuple) \
@@ -122,7 +125,7 @@ def run(ctx: Ctx):
             for st_ in n.body:
                 if isinstance(st_, ast.Assign) and isinstance(st_.targets[0], ast.Subscript):
                     t = st_.targets[0]
-                    okk = u(t.slice) == kn and u(t.value) == "self.cache_hist[epoch]" and isinstance(st_.value, ast.Call) \
+                    okk = u(t.slice) == kn and u(t.value) in {f"self.cache_hist[{e_}]" for e_ in row_epoch_names} and isinstance(st_.value, ast.Call) \
                         and u(st_.value.func) == tn and len(st_.value.args) == 1 and isinstance(st_.value.args[0], ast.Subscript) \
                         and u(st_.value.args[0].slice) == kn and u(st_.value.args[0].value) == rl.target.id
                     urest.append(okk)
@@ -207,7 +210,13 @@ def run(ctx: Ctx):
                 if name in allowed_writers:
                     continue
                 isitem = isinstance(node, ast.Subscript) and attr == "cache_hist"
-                ok = isitem and name in ("update_for_epoch", "save_info_to_hist") and u(node.slice) == "epoch"
+                ok = False
+                if isitem and name in ("update_for_epoch", "save_info_to_hist") and isinstance(node.slice, ast.Name):
+                    rdm_ = ReachingDefs(f.node)
+                    # the subscript node is a Store; look up the key name's defs via a Load twin
+                    ds_ = [d for d in rdm_.defs if d.name == node.slice.id]
+                    ok = bool(ds_) and all(d.kind == "param" and d.name == "epoch" or (d.value is not None and (
+                        u(d.value).endswith("['epoch']") or u(d.value) == "self.get_last_epoch() + 1")) for d in ds_)
                 col.ob("G13", "S2", f"{W(name)}::writes(self.{attr})", ok,
                        f"{name} assigns `{u(node)}`: controller state that is not re-derivable from the history "
                        f"file makes a restarted controller diverge", rel, node.lineno, sample=u(node))
